@@ -115,6 +115,17 @@ CLAIMED["C16"] = ("other",
     "One trusted lemma: a shift-or accumulation of at most 7 octets into an int64 is non-negative (premise proved). Result atoms of a call are assumed to be used only after its error was tested (R4 checks that). Panics inside package reflect for exotic target types are out of scope.",
     "DESIGN.md §4 C16")
 
+CLAIMED["C04"] = ("other",
+    "schema walk over every named type of cdr/cdrType mirroring the reflection walk with case lists extracted from makeField's SSA (exhaustive table rule); relational analysis of reflect index arguments; interval analysis of the BIT STRING initial octet; constants under branch edges; error-propagation rule",
+    "Decides the shape part of well-formedness and panic freedom for every schema type and value: every one of the ~195 schema types is encodable by the walk (non-empty structs, optional members nillable, integer CHOICE selector, leaf kinds in the extracted case list, strings reached through a context tag); every reflect Field/Index argument is in range on its path (so an out-of-range CHOICE selector is an error, not a panic); the BIT STRING unused-bit octet is within 0..7 for all bit lengths; BOOLEAN is 0xFF/0x00; nested errors are returned, never swallowed. The value-level clauses (minimal INTEGER octets, identifier/length arithmetic, children summing to the parent, byte equality with a reference encoder) are numerical results no sound structural rule decides; they are not claimed.",
+    "Trusted: package reflect; the ber tag language is mirrored from parseFieldParameters. Buffer arithmetic of the content encoders is not analysed.",
+    "DESIGN.md §4 C04")
+CLAIMED["C05"] = ("other",
+    "sibling cross-check of the two codec halves on facts extracted from their SSA (kind case lists, special types, conventions, element parameters) and an exhaustive decodability walk of the schema; error and reflect-assignability rules",
+    "Decides structural preconditions of the round-trip law, not the law on values: encoder and decoder agree on kinds, special types, struct conventions, the tag parser and on processing list elements with the list's tag cleared; every schema type is decodable by the decoder's matching rule (members and alternatives tagged, tags unique, leaf kinds handled) - four untagged schema members are recorded as known findings (values using them encode but do not decode); unsupported constructs return errors in both halves; the decoder's reflect Set calls are type-correct. Value equality (e.g. negative integers, embedded-CHOICE offsets) is explicitly undecided.",
+    "Known findings C05.R2 x4 (untagged members/alternative). Value-level round trip not claimed.",
+    "DESIGN.md §4 C05")
+
 # id -> reason, for properties not (yet) claimed
 NOT_APPLICABLE = {
 }
